@@ -60,7 +60,67 @@ def classify_result_use(F, ev, body, call_block, R, rule, config, roles, depth=0
     return classify_consumers(F, ev, body, call_block, dest["l"], cons, roles, depth)
 
 
+ITER_DROPPERS = ("flat_map", "flat_map_iter", "filter_map", "flatten", "for_each", "inspect", "map_while", "take_while", "skip_while", "scan",
+                 "filter", "any", "all", "position", "find", "find_map", "count", "last", "max_by", "min_by")
+ITER_PASS = ("enumerate", "zip", "skip", "take", "rev", "peekable", "chain", "cloned", "copied", "by_ref", "into_iter", "iter", "with_min_len", "with_max_len")
+ITER_COLLECT = ("collect", "from_iter", "from_par_iter", "try_for_each", "try_fold", "sum", "product", "collect_into_vec")
+
+
+def closure_result_delivery(F, body, depth=0):
+    """a Result/Option that a CLOSURE returns is delivered to whatever drives the closure. (ok, how, msg):
+    an iterator adapter that discards or flattens it (`flat_map`, `filter_map`, `for_each`, …) loses the failure;
+    `map` must end in a collector into Result/Option (`collect::<Result<_,_>>()`, `try_*`, `sum`); Option/Result
+    combinators and direct calls keep it (their result is followed by the caller's own classification)"""
+    parent = F.bodies.get(body.j.get("parent"))
+    if parent is None or depth > 3:
+        return True, "closure-result", ""
+    made = [(bi, si, st) for bi, si, st in parent.stmts() if st["k"] == "assign" and st["rv"]["k"] == "agg" and st["rv"].get("agg") == "closure"
+            and st["rv"].get("closure") == body.key and not st["place"]["proj"]]
+    if len(made) != 1:
+        return True, "closure-result", ""
+    drivers = [c for c in consumers(parent, made[0][2]["place"]["l"]) if c["kind"] == "call"]
+    if len(drivers) != 1:
+        return True, "closure-result", ""
+    c = drivers[0]
+    cid = c["cid"]
+    m = cid.rsplit("::", 1)[-1]
+    is_iter = "iter::" in cid or "Iterator" in cid or cid.startswith("rayon::")
+    if not is_iter:
+        return True, "closure-result→" + m, ""
+    if m in ITER_DROPPERS:
+        return False, m, "the closure's Result/Option is handed to the iterator adapter `%s`, which discards failures: the error is silently dropped" % m
+    if m not in ("map", "map_with", "map_init"):
+        return False, m, "the closure's Result/Option is handed to the iterator adapter `%s` (unmodelled, undetermined)" % m
+    # follow the mapped iterator to its terminal
+    cur = c["term"]["dest"]
+    for _ in range(8):
+        if cur["proj"]:
+            return False, "stored", "mapped iterator stored (undetermined)"
+        nxt = [x for x in consumers(parent, cur["l"]) if x["kind"] == "call"]
+        if len(nxt) != 1:
+            return False, "iter", "the iterator of Results is not consumed by one collector (undetermined)"
+        n_ = nxt[0]["cid"].rsplit("::", 1)[-1]
+        if n_ in ITER_PASS:
+            cur = nxt[0]["term"]["dest"]
+            continue
+        if n_ in ITER_COLLECT:
+            ty = parent.local_ty(nxt[0]["term"]["dest"]["l"]) or ""
+            if n_ in ("try_for_each", "try_fold") or ty.startswith("std::result::Result<") or ty.startswith("std::option::Option<"):
+                return True, "map→" + n_, ""
+            return False, n_, "the Results are collected into `%s`, which cannot carry the failure" % ty[:60]
+        if n_ in ITER_DROPPERS:
+            return False, n_, "the iterator of Results is consumed by `%s`, which discards failures" % n_
+        return False, n_, "the iterator of Results is consumed by `%s` (unmodelled, undetermined)" % n_
+    return False, "iter", "adapter chain too long (undetermined)"
+
+
 def classify_consumers(F, ev, body, call_block, local, cons, roles, depth):
+    if body.kind == "Closure" and not cons and local is not None:
+        # the call result is the closure's return value itself (`|k| model.eval_partial_deriv(k)`)
+        t0 = body.blocks[call_block]["term"] if call_block is not None else None
+        if t0 is not None and t0.get("dest", {}).get("l") == 0:
+            ok, how, msg = closure_result_delivery(F, body)
+            return (ok, "returned→" + how, msg)
     if not cons:
         return False, "discarded", "the Result is discarded (no consumer)"
     hows = []
@@ -87,6 +147,10 @@ def classify_consumers(F, ev, body, call_block, local, cons, roles, depth):
                     if d["proj"]:
                         return False, "stored", "converted result stored into a projected place"
                     if d["l"] == 0:
+                        if body.kind == "Closure":
+                            ok, how, msg = closure_result_delivery(F, body)
+                            if not ok:
+                                return False, how, msg
                         hows.append(m + "→returned")   # handed to the caller as an absent value
                         continue
                     sub = consumers(body, d["l"])
@@ -116,6 +180,10 @@ def classify_consumers(F, ev, body, call_block, local, cons, roles, depth):
             hows.append("match-absent")
             continue
         if k == "return":
+            if body.kind == "Closure":
+                ok, how, msg = closure_result_delivery(F, body)
+                if not ok:
+                    return False, how, msg
             hows.append("returned")
             continue
         if k == "field":
@@ -248,6 +316,17 @@ def failure_edge_is_absent(F, ev, body, sw_block, fail_target, ok_targets, roles
         exits = [e for e in body.exits() if e in reach]
         r2 = body.reachable(fail_target, avoid=set(none_blocks))
         if fail_target not in none_blocks and any(e in r2 for e in exits):
+            # no None write AFTER the failure — the cache may have been emptied BEFORE the model call ("invalidate first,
+            # then early returns"): what counts is the value of the cache at the returns reached through the failure edge
+            from terms import place_key
+            pk = place_key(cw[0][4]["place"])
+            try:
+                vals = [ev_f.lookup(env_f, pk, (e, None)) for e in exits]
+            except RecursionError:
+                vals = [None]
+            if vals and all(v is not None and (v[0] == "none" or is_absent_value(v) or
+                                               (v[0] == "phi" and all(a[0] == "none" or is_absent_value(a) for a in v[1]))) for v in vals):
+                return True, ""
             return False, "a path from the failure edge reaches return without emptying the cache"
         return True, ""
     # (b) the function has no cache to empty: on every path *through the failure edge* it must
